@@ -170,6 +170,11 @@ pub fn matrix(expression: Expression) -> Expression {
                     matrix = true;
                 }
             }
+            // NOTE: A column is keyed by the single char made from its index; there is no such
+            // char from 0xD800 on, so wider groups are left as they are.
+            if fields.len() >= 0xD800 {
+                matrix = false;
+            }
 
             if matrix {
                 let mut columns: Vec<(String, u32)> = fields.into_iter().collect();
